@@ -1129,6 +1129,10 @@ func scanOutParamW(c *core.Ctx) []ob {
 				if b, ok := sig.Results().At(0).Type().Underlying().(*types.Basic); ok && b.Info()&(types.IsNumeric|types.IsBoolean) != 0 {
 					continue
 				}
+				// … or that returns views of it (`accumulators(distinct, opOut) (c0, c1 ringqp.Poly)`): a builder
+				if t := sig.Results().At(0).Type(); !isErrorType(t) && (polyish(t) || strings.Contains(t.String(), "Poly")) {
+					continue
+				}
 			}
 			n++
 			key := fmt.Sprintf("OUTPARAMW:%s#%s", fkey, p.Name())
@@ -1151,6 +1155,26 @@ func scanOutParamW(c *core.Ctx) []ob {
 								wrote = true
 							}
 						}
+					}
+					// components of the output filed in a literal (`ct.Value = []ring.Poly{out.Value[0], out.Value[1]}`):
+					// the element built on them is what the callees write
+					for _, r := range v.Rhs {
+						ast.Inspect(r, func(y ast.Node) bool {
+							cl, ok := y.(*ast.CompositeLit)
+							if !ok {
+								return true
+							}
+							for _, el := range cl.Elts {
+								e := el
+								if kv, ok := el.(*ast.KeyValueExpr); ok {
+									e = kv.Value
+								}
+								if id := rootIdent(e); id != nil && d.pk.TypesInfo.Uses[id] == types.Object(p) {
+									wrote = true
+								}
+							}
+							return true
+						})
 					}
 				case *ast.CallExpr:
 					// handed to a callee outside the module's summaries (interface of another package, func value)
